@@ -1,21 +1,13 @@
 #!/usr/bin/env python3
-"""Regenerates /verif/MANIFEST.json from the table below (kept valid at all times)."""
+"""Regenerates /verif/MANIFEST.json from manifest.d/Cxx.json fragments (text, note, technique, design)."""
 import json, os
 HERE = os.path.dirname(os.path.abspath(__file__))
 VERIF = os.path.dirname(HERE)
 
-CHECKS = {
-    "C07": dict(
-        text="Lean 4 theorems over all lower-cased paths and all MIME answers (equivalence of is_supported_file and "
-             "get_extractor, extension decides, alias = base, documented extensions) proved for every table set "
-             "satisfying a decidable well-formedness predicate that the kernel re-decides on tables regenerated from "
-             "the source each run; model of splitext/lookup tied to the real router and read_file dispatch by a "
-             "differential correspondence over ~20k paths x 3 mimetypes configurations.",
-        note="Trusted: Lean kernel (+propext, Quot.sound, Classical.choice), translate.py, CPython str.lower / "
-             "mimetypes.guess_type as parameters, model of posixpath.splitext validated by correspondence only.",
-        technique="Lean 4 proof over translated tables + differential correspondence",
-        design="§5 C07"),
-}
+CHECKS = {}
+for fn in sorted(os.listdir(os.path.join(VERIF, "manifest.d"))):
+    if fn.endswith(".json"):
+        CHECKS[fn[:-5]] = json.load(open(os.path.join(VERIF, "manifest.d", fn)))
 NOT_YET = {}
 
 def main():
